@@ -22,12 +22,32 @@ def gen_exc(rng):
     return rng.choice(EXC_BASE if rng.random() < 0.55 else EXC_ERR)
 
 
+FLAKY = 7         # the one job that really runs (fails, is submitted again, succeeds); outside the universe 0..NJ-1
+MODES = ["normal", "generate", "dry"]           # RunMode.NORMAL / GENERATE_ONLY / DRY_RUN
+MODE_W = [80, 13, 7]
+LAYOUTS = ["plain", "jobs-link", "task-link", "ws-link"]     # what is a symbolic link in the workspace (see the driver)
+LAYOUT_W = [52, 18, 16, 14]
+NAMES = ["e", "e", "e", "e", "e", "exp-1.b", "e e", "g/e"]   # experiment names ("g/e": must be refused or be seen by the tools)
+
+
+def gen_layout(rng, names=True):
+    d = dict(layout=rng.choices(LAYOUTS, LAYOUT_W)[0])
+    if names:
+        d["name"] = rng.choice(NAMES)
+    return d
+
+
 # ---------------------------------------------------------------- generator
 def gen_run(rng, first):
     n = rng.choice([0, 1, 1, 2, 2, 3, 3, 4, 5])
     jobs = [rng.randrange(NJ) for _ in range(n)]
+    mode = rng.choices(MODES, MODE_W)[0]
     end = rng.choices(ENDS, END_W)[0]
-    run = dict(jobs=jobs, end=end, mk=sorted(set(jobs)), rm=[])
+    if mode != "normal" and end not in ("ok", "exc", "kill_in"):      # no rotation, no rmtree, no scheduler in these modes
+        end = rng.choice(["ok", "ok", "exc", "kill_in"])
+    run = dict(jobs=jobs, end=end, mk=sorted(set(jobs)) if mode == "normal" else [], rm=[])
+    if mode != "normal":
+        run["mode"] = mode
     if first:
         run["mk"] = sorted(set(jobs) | {x for x in range(NJ) if rng.random() < 0.4})
     elif rng.random() < 0.15:
@@ -47,9 +67,42 @@ def gen_run(rng, first):
     return run
 
 
-def gen_hist(rng):
+def gen_hist(rng, flaky=False):
     n = rng.choice([1, 2, 3, 3, 4, 4, 5, 6])
-    return dict(kind="hist", runs=[gen_run(rng, i == 0) for i in range(n)])
+    case = dict(kind="hist", runs=[gen_run(rng, i == 0) for i in range(n)], **gen_layout(rng))
+    if flaky:         # one run of the history, ending normally, also runs a job that fails and is submitted again
+        oks = [r for r in case["runs"] if r["end"] == "ok" and r.get("mode", "normal") == "normal"]
+        if not oks:
+            oks = [dict(jobs=[rng.randrange(NJ)], end="ok", mk=[], rm=[], sync=True, sig=False)]
+            oks[0]["mk"] = list(oks[0]["jobs"])
+            case["runs"].append(oks[0])
+        rng.choice(oks)["flaky"] = True
+        case["name"] = "e"
+    return case
+
+
+def gen_reenter(rng):
+    """One process, 2-4 blocks one after the other on one experiment object (or, control, a new object each time)."""
+    pre = [gen_run(rng, True)] if rng.random() < 0.4 else []
+    blocks = []
+    for _ in range(rng.choice([2, 2, 3, 4])):
+        b = dict(jobs=[rng.randrange(NJ) for _ in range(rng.choice([0, 1, 1, 2, 3]))], how=rng.choice(["ok", "ok", "ok", "exc"]))
+        if b["how"] == "exc":
+            b["exc"] = gen_exc(rng)
+        blocks.append(b)
+    mk = sorted({x for b in blocks for x in b["jobs"]})
+    return dict(kind="reenter", pre=pre, mk=mk, blocks=blocks, reuse=rng.random() < 0.75, **gen_layout(rng, names=False))
+
+
+def gen_nested(rng):
+    pre = []
+    for i in range(rng.choice([0, 0, 1])):
+        r = gen_run(rng, i == 0)
+        r["end"] = rng.choice(["ok", "exc"]) if r["end"] not in ("ok", "exc", "kill_in") else r["end"]
+        pre.append(r)
+    a, inner, b_ = ([rng.randrange(NJ) for _ in range(rng.choice([1, 1, 2]))] for _ in range(3))
+    return dict(kind="nested", pre=pre, a=a, inner=inner, b=b_, mk=sorted(set(a) | set(inner) | set(b_)), wait=0.4,
+                **gen_layout(rng, names=False))
 
 
 def gen_excl(rng):
@@ -62,7 +115,7 @@ def gen_excl(rng):
     p1 = [rng.randrange(NJ) for _ in range(rng.choice([1, 1, 2, 3]))]
     p2 = [rng.randrange(NJ) for _ in range(rng.choice([0, 1, 2, 3]))]
     return dict(kind="excl", pre=pre, p1=p1, p2=p2, mk=sorted(set(p1) | set(p2)),
-                leave=rng.choice(["ok", "exc", "exc", "kill"]), exc=gen_exc(rng), wait=0.4)
+                leave=rng.choice(["ok", "exc", "exc", "kill"]), exc=gen_exc(rng), wait=0.4, **gen_layout(rng, names=False))
 
 
 def gen_excl3(rng):
@@ -73,7 +126,8 @@ def gen_excl3(rng):
         pre.append(r)
     a, b_, c_ = ([rng.randrange(NJ) for _ in range(rng.choice([1, 1, 2]))] for _ in range(3))
     return dict(kind="excl3", pre=pre, a=a, b=b_, c=c_, mk=sorted(set(a) | set(b_) | set(c_)),
-                leave=rng.choice(["ok", "exc"]), exc=gen_exc(rng), third=rng.choice(["new", "relaunch"]), wait=0.4)
+                leave=rng.choice(["ok", "exc"]), exc=gen_exc(rng), third=rng.choice(["new", "relaunch"]), wait=0.4,
+                **gen_layout(rng, names=False))
 
 
 # ---------------------------------------------------------------- reading a run's record
@@ -135,6 +189,21 @@ def run_items(p, run, res, pre):
     jpre, bpre = names(pre["jobs"]), names(pre["bak"])
     jpost = names(snap["jobs"])
     items = [ev("RmJobDir", None, x) for x in run.get("rm", [])] + [ev("MkJobDir", None, x) for x in run.get("mk", [])]
+    mode = run.get("mode", "normal")
+    if mode == "dry":            # RunMode.DRY_RUN: no lock, nothing touched, nothing prepared - no event
+        return items + [g_obs(snap)]
+    if mode == "generate":       # RunMode.GENERATE_ONLY: lock held, submit() prepares the job folder, nothing else
+        items.append(ev("LockGen", p))
+        items += [ev("MkJobDir", None, x) for x in subs_of(log)]
+        if "exited" in log:
+            items.append(f"Ev (EndGen {gnat(p)} false)")
+        elif "raise" in log or any(l.startswith("error") for l in log):
+            items.append(f"Ev (EndGen {gnat(p)} true)")
+        else:
+            items.append(ev("Kill", p))
+        return items + [g_obs(snap)]
+    if "flaky-failed" in log or "flaky-done" in log:      # the job that really ran made its own folder
+        items.append(ev("MkJobDir", None, FLAKY))
     items.append(ev("Lock", p))
     if "kill locked" in log:
         return items + [ev("Kill", p), g_obs(snap)]
@@ -181,10 +250,22 @@ def ok_exit_tail(p, bak_names):
 EMPTY = dict(jobs=[], bak=None, orph=None)
 
 
+def as_runs(case):
+    """(process, run) of every run of a history; a "reenter" case is a history whose blocks are runs of one process."""
+    if case["kind"] == "hist":
+        return list(enumerate(case["runs"]))
+    n = len(case["pre"])
+    out = list(enumerate(case["pre"]))
+    for i, b in enumerate(case["blocks"]):
+        out.append((n, dict(jobs=b["jobs"], end=b.get("how", "ok"), exc=b.get("exc", "error"), k=len(b["jobs"]),
+                            mk=case["mk"] if i == 0 else [], rm=[])))
+    return out
+
+
 def case_items(case, res):
     items, pre = [], EMPTY
-    if case["kind"] == "hist":
-        for p, (run, r) in enumerate(zip(case["runs"], res["runs"])):
+    if case["kind"] in ("hist", "reenter"):
+        for (p, run), r in zip(as_runs(case), res["runs"]):
             items += run_items(p, run, r, pre)
             pre = r["snap"]
         return items
@@ -193,6 +274,8 @@ def case_items(case, res):
         pre = r["snap"]
     if case["kind"] == "excl3":
         return items + excl3_items(case, res, pre)
+    if case["kind"] == "nested":
+        return items + nested_items(case, res, pre)
     p1, p2 = len(case["pre"]), len(case["pre"]) + 1
     items += [ev("MkJobDir", None, x) for x in case["mk"]]
     held = res["s_held"]
@@ -243,6 +326,24 @@ def excl3_items(case, res, pre):
     items += leave_ok_items(pb, res["s_b"])
     items += enter_items(pc, res["s_b"], tsubs(logs, "C"), res["s_c"])
     items += leave_ok_items(pc, res["s_c"]) + [g_obs(res["s_end"])]
+    return items
+
+
+def nested_items(case, res, pre):
+    """A inside; its process tries the same experiment again inside the block: refused = no step at all; a second
+    process stays outside until A leaves."""
+    n = len(case["pre"])
+    pa, pb = n, n + 1
+    logs = res["logs"]
+    items = [ev("MkJobDir", None, x) for x in case["mk"]]
+    items += enter_items(pa, pre, tsubs(logs, "A"), res["s_a"])
+    items.append(g_obs(res["s_n"]))
+    if not res["b_early"]:
+        items.append(f"Blocked (Lock {gnat(pb)})")
+    items.append(g_obs(res["s_bwait"]))
+    items += leave_ok_items(pa, res["s_a"])
+    items += enter_items(pb, res["s_a"], tsubs(logs, "B"), res["s_b"])
+    items += leave_ok_items(pb, res["s_b"]) + [g_obs(res["s_end"])]
     return items
 
 
@@ -310,10 +411,20 @@ class Oracle:
                       f"the block was left through an exception ({how}) but the links {gone} of the index found on entry "
                       f"are not in jobs.bak/ afterwards (jobs.bak = {'absent' if snap['bak'] is None else names(snap['bak'])})", i)
 
-    def run(self, res, i):
+    def run(self, res, i, mode="normal"):
         log, snap = res["log"], res["snap"]
         subs = subs_of(log)
         self.links_ok(snap, i)
+        if mode != "normal":
+            # a generate-only or dry run schedules nothing: it completes no plan and begins none; what had to be kept
+            # before it still has to be (in particular the backup an aborted normal run left)
+            if any(l.startswith("error") for l in log):
+                self.flag("C16:context-raised", "the experiment context raised although the block did not: " +
+                          [l for l in log if l.startswith("error")][0][:200], i)
+            self.kept(snap, i)
+            self.kept_until_completed(snap, i, f"a {mode} run does not complete a plan")
+            self.prev = snap
+            return
         if any(l.startswith("error") for l in log):
             self.flag("C16:context-raised", "the experiment context raised although the block did not: " +
                       [l for l in log if l.startswith("error")][0][:200], i)
@@ -340,17 +451,38 @@ class Oracle:
         self.prev = snap
 
 
+def tag_key(case, key, i):
+    """The same clause, reported under its own key when the input belongs to one of the families of round 6."""
+    if "/" in case.get("name", "e"):
+        return key + ":experiment-name-with-separator"
+    if case["kind"] == "reenter" and case.get("reuse") and i > len(case["pre"]):
+        return key + ":same-object-entered-again"
+    if case["kind"] == "hist" and i < len(case["runs"]) and case["runs"][i].get("flaky"):
+        return key + ":resubmitted-job"
+    if case["kind"] == "nested" and not key.endswith("nested-block"):
+        return key + ":nested-probe"
+    return key
+
+
 def oracle_case(case, res):
+    return [(tag_key(case, k, i), w, i) for k, w, i in oracle_case_(case, res)]
+
+
+def oracle_case_(case, res):
     o = Oracle()
-    if case["kind"] == "hist":
-        for i, r in enumerate(res["runs"]):
-            o.run(r, i)
+    if case["kind"] in ("hist", "reenter"):
+        for i, ((_, run), r) in enumerate(zip(as_runs(case), res["runs"])):
+            o.run(r, i, run.get("mode", "normal"))
+            if run.get("flaky") and "flaky-done" not in r["log"]:
+                raise InternalError(f"the flaky job did not fail and then succeed: {r['log']}")
         return o.found
-    for i, r in enumerate(res["pre"]):
-        o.run(r, i)
+    for i, (run, r) in enumerate(zip(case["pre"], res["pre"])):
+        o.run(r, i, run.get("mode", "normal"))
     n = len(res["pre"])
     if case["kind"] == "excl3":
         return oracle_excl3(o, case, res, n)
+    if case["kind"] == "nested":
+        return oracle_nested(o, case, res, n)
     if res["p2_early"]:
         o.flag("C16:second-holder-entered", "a second process entered the experiment while the first still held it", n)
     if res["s_waiting"] != res["s_held"]:
@@ -427,8 +559,42 @@ def oracle_excl3(o, case, res, n):
     return o.found
 
 
+def oracle_nested(o, case, res, n):
+    """While A is inside - whatever its own process tried meanwhile - nobody else gets in and nobody but A's block
+    touches the index."""
+    logs = res["logs"]
+    for l in [l for who in logs.values() for l in who]:
+        if " error " in l:
+            o.flag("C16:context-raised", "the experiment context raised although the block did not: " + l[:200], n)
+    refused = "A nested-entered" not in logs["a"]
+    if res["s_n"] != res["s_a"]:
+        o.flag("C16:index-changed-by-nested-block", f"the same experiment entered again by the process that is inside it "
+               f"({'refused' if refused else 'entered'}) changed the index of the running block: {res['s_a']} -> {res['s_n']}", n)
+    if res["b_early"]:
+        o.flag("C16:second-holder-entered:after-nested-block", "after the process inside the experiment entered and left the same "
+               "experiment again within its block, a second process entered while the first block was still running", n)
+    elif res["s_bwait"] != res["s_n"]:
+        o.flag("C16:index-changed-by-waiter", f"the index changed while a second process was waiting for the experiment: "
+               f"{res['s_n']} -> {res['s_bwait']}", n)
+    if not res["b_after"]:
+        o.flag("C16:second-never-entered", "the second process did not get the experiment after the first left", n + 1)
+        return o.found
+    o.links_ok(res["s_a"], n)
+    made_a = set(names(res["s_a"]["jobs"])) & set(tsubs(logs, "A"))
+    o.keep |= made_a
+    o.kept(res["s_n"], n)
+    o.kept(res["s_bwait"], n)
+    if refused and not res["b_early"] and res["b_left"]:
+        o.keep = made_a                       # A left normally
+        o.keep |= set(names(res["s_b"]["jobs"])) & set(tsubs(logs, "B"))
+        o.kept(res["s_b"], n + 1)
+        o.links_ok(res["s_end"], n + 1)
+        o.completed(res["s_end"], tsubs(logs, "B"), n + 1)
+    return o.found
+
+
 def machinery_problem(case, res):
-    rs = res["runs"] if case["kind"] == "hist" else res["pre"]
+    rs = res["runs"] if case["kind"] in ("hist", "reenter") else res["pre"]
     for r in rs:
         m = run_failed(r)
         if m:
@@ -438,6 +604,11 @@ def machinery_problem(case, res):
             return "probe3: first process did not get in / did not leave"
         if not res["b_trying"] or not res["c_trying"]:
             return "probe3: a contender did not start"
+    if case["kind"] == "nested":
+        if not res["a_in"] or not res["n_done"] or not res["a_left"] or res["timeouts"]:
+            return "nested: first process did not get in / did not finish the nested attempt / did not leave"
+        if not res["b_trying"]:
+            return "nested: second process did not start"
     if case["kind"] == "excl":
         if not res["p1_in"] or res.get("p1_timeout"):
             return "probe: first process did not get in / did not leave"
@@ -512,8 +683,13 @@ def run(c: Check):
               "normally (falling off the block, return, break), raising after k submits (Exception subclasses and groups; "
               "non-Exception BaseExceptions: sys.exit(0/1/msg), KeyboardInterrupt, asyncio.CancelledError, a user BaseException, "
               "a BaseExceptionGroup, GeneratorExit of a closed generator), killed after k submits, killed inside __enter__ before/after k moves, "
-              "killed inside __exit__ after k removals, when wait() is called or after it returned, wait() raising) plus two-process probes and three-process lock hand-over "
-              "probes (A inside, B waiting, A leaves through __exit__, B inside, C or A again contends); non-trivial = a history "
+              "killed inside __exit__ after k removals, when wait() is called or after it returned, wait() raising; each run in "
+              "RunMode NORMAL (80%), GENERATE_ONLY or DRY_RUN; some runs also really run a job that fails, is submitted again and "
+              "succeeds), on a workspace where nothing / <workspace>/jobs / <workspace>/jobs/<task> / the workspace itself is a "
+              "symbolic link, under experiment names with dots, spaces and a path separator; one process running 2-4 blocks on one "
+              "experiment object; plus two-process probes, three-process lock hand-over "
+              "probes (A inside, B waiting, A leaves through __exit__, B inside, C or A again contends) and nested probes (A inside "
+              "enters the same experiment again within its block, then B contends); non-trivial = a history "
               "with a completed run followed by at least one aborted or killed run, or a probe; distinct by canonical case")
     if "props/C16.v" in (ROOT / "coq" / "_CoqProject").read_text():
         c.build()
@@ -528,14 +704,20 @@ def run(c: Check):
         rp = json.load(open(c.replay))["replay"]
         if isinstance(rp, dict) and "case" in rp:
             cases.append(rp["case"])
-        nh = ne = n3 = 0
+        nh = ne = n3 = nr = nn = nf = 0
     else:
         gold = ROOT / "golden" / "c16.json"
         if gold.exists():
             cases += json.load(open(gold))
-        nh, ne, n3 = (300, 24, 12) if c.quick else (4500, 240, 120)
+        nh, ne, n3, nr, nn, nf = (300, 24, 12, 12, 8, 3) if c.quick else (4500, 240, 120, 160, 100, 32)
     for _ in range(nh):
         cases.append(gen_hist(c.rng))
+    for _ in range(nf):
+        cases.append(gen_hist(c.rng, flaky=True))
+    for _ in range(nr):
+        cases.append(gen_reenter(c.rng))
+    for _ in range(nn):
+        cases.append(gen_nested(c.rng))
     for _ in range(ne):
         cases.append(gen_excl(c.rng))
     for _ in range(n3):
@@ -547,12 +729,23 @@ def run(c: Check):
         if m:
             raise InternalError(f"{m}: case={json.dumps(case)} result={json.dumps(res)[:1500]}")
         c.evaluations += 1
-        good.append((case, res))
-        rs = case["runs"] if case["kind"] == "hist" else case["pre"]
-        rr = res["runs"] if case["kind"] == "hist" else res["pre"]
+        histlike = case["kind"] in ("hist", "reenter")
+        rs = [r_ for _, r_ in as_runs(case)] if histlike else case["pre"]
+        rr = res["runs"] if histlike else res["pre"]
         c.count("kind:" + case["kind"])
+        c.count("layout:" + case.get("layout", "plain"))
+        c.count("name:" + case.get("name", "e"))
+        if any(l.startswith("refused") for r in rr for l in r["log"]):
+            # the implementation does not accept this experiment (name): nothing to observe
+            c.count("experiment-refused:" + case.get("name", "e"))
+            continue
+        good.append((case, res))
         if case["kind"] == "hist":
             c.count(f"runs={len(rs)}")
+        elif case["kind"] == "reenter":
+            c.count(f"reenter:blocks={len(case['blocks'])},reuse={case.get('reuse')}")
+        elif case["kind"] == "nested":
+            c.count("nested:" + ("refused" if "A nested-entered" not in res["logs"]["a"] else "entered"))
         elif case["kind"] == "excl3":
             c.count(f"probe3:leave={case['leave']},third={case['third']}")
             if case["leave"] == "exc":
@@ -562,6 +755,8 @@ def run(c: Check):
             if case["leave"] == "exc":
                 c.count("probe-raised:" + case.get("exc", "error"))
         seen_ok, nontrivial = False, case["kind"] != "hist"
+        if any(r_.get("flaky") for r_ in rs):
+            c.count("history-with-resubmitted-failed-job")
         prev = EMPTY
         for run_, r in zip(rs, rr):
             jp, bp = set(names(prev["jobs"])), set(names(prev["bak"]))
@@ -574,6 +769,9 @@ def run(c: Check):
                 c.count("killed-with-backup-partly-removed")
             prev = r["snap"]
             c.count("end:" + run_["end"])
+            c.count("mode:" + run_.get("mode", "normal"))
+            if run_.get("mode", "normal") != "normal" and bp and "exited" in r["log"]:
+                c.count(f"{run_['mode']}-run-ended-normally-with-a-backup-present")
             if "raise" in r["log"]:
                 c.count("raised:" + run_.get("exc", "error"))
                 c.count("raised-class:" + ("not-an-Exception" if "exc-class base" in r["log"] else "Exception"))
@@ -602,7 +800,7 @@ def run(c: Check):
                 continue
             small = case
             if case["kind"] == "hist":
-                small = dict(kind="hist", runs=case["runs"][:i + 1])
+                small = dict(case, runs=case["runs"][:i + 1])
                 if not c.replay and len(c.violations) < 2:
                     small = shrink(c, small, key)
             c.violation(key, what, dict(case=small, found_in_run=i, original=case, result=res))
@@ -619,7 +817,10 @@ def run(c: Check):
         "before an abort may have no link yet - 'begun to schedule' is read as 'link exists'",
         "after an exception the scheduler loop is stopped without waiting: a link made by the loop thread after the "
         "lock was released is outside the model",
-        "one experiment name per workspace; run modes other than NORMAL are not covered",
+        "one experiment name per workspace; a DRY_RUN run is modelled as no event at all, a GENERATE_ONLY run as "
+        "lock / prepared job folders / release",
+        "the harness never lets jobs run, except the one job of the resubmission scenario; job directories and success "
+        "markers are created beforehand",
     ]
 
 
